@@ -17,6 +17,7 @@ def r4(ctx):
 
 
 RULES = {
+    "C11.RG": lambda ctx: __import__("rules.foundations", fromlist=["x"]).no_global_state(ctx, "C11.RG"),
     "C11.RL": lambda ctx: __import__("rules.common", fromlist=["x"]).loop_exit_rule(ctx, "C11.RL", {'vlq::parse_vlq_segment_into': 0, 'vlq::encode_vlq': 1, 'vlq::generate_vlq_segment': 0}),
     "C11.R1": lambda ctx: vlqrules.tables(ctx, "C11.R1"),
     "C11.R2w": lambda ctx: vlqrules.writer_shape(ctx, "C11.R2w"),
